@@ -77,6 +77,9 @@ pub enum Shape {
     PipeDrop,
     /// C12: a pipe / consume... sequence is spliced into one caller; producers push bursts and close
     PipeConsume,
+    /// C04: a future that is polled once and then dropped (queue left waiting for a poll) plus syncs on that object,
+    /// some of them from inside pool jobs, are spliced into an ordinary program
+    AbandonedPoll,
     /// C11: a pipe_in is spliced into one caller; producers push bursts with yields in between
     PipeIn,
 }
@@ -283,5 +286,10 @@ pub fn case_strategy(p: &Profile) -> BoxedStrategy<Case> {
         Shape::PipeDrop => crate::profiles::pipedrop_case(&p, true),
         Shape::PipeConsume => crate::profiles::pipedrop_case(&p, false),
         Shape::PipeIn => crate::profiles::pipein_case(&p),
+        Shape::AbandonedPoll => {
+            let mut plain = p.clone();
+            plain.shape = Shape::Plain;
+            prop_oneof![6 => case_strategy(&plain), 4 => crate::profiles::abandoned_poll_case(&p)].boxed()
+        }
     }
 }
